@@ -98,16 +98,20 @@ def cdata(rng):
     return "<![CDATA[" + rng.choice(["x", "<b>", "]]", "]", "]>", "", "</svg>", "<textarea>", "a]]b", "<!--"]) + "]]>"
 
 
-def html_inside(rng, depth):
-    """well-nested HTML content (may contain text-mode elements and islands)"""
+def html_inside(rng, depth, inline_only=False):
+    """well-nested HTML content (may contain text-mode elements and islands).
+    `inline_only` (inside annotation-xml): no block elements and no `a` — html5ever 0.39 does not treat MathML
+    annotation-xml as a scope boundary ("has an element in button scope" / adoption agency), so with an open
+    `<p>` / `<a>` outside the island it pops the whole island where WHATWG does not (an artefact of the
+    oracle, see docs/pkg-ref.md)."""
     s = ""
     for _ in range(rng.randrange(0, 4)):
         r = rng.random()
         if r < 0.25:
             s += rng.choice(SAFE_TEXT)
         elif r < 0.45:
-            n = rng.choice(HTML_INLINE + HTML_BLOCK)
-            s += "<" + lex.caseify(rng, n) + fattrs(rng) + ">" + html_inside(rng, depth + 1) + "</" + lex.caseify(rng, n) + ">"
+            n = rng.choice([x for x in HTML_INLINE if x != "a"] if inline_only else HTML_INLINE + HTML_BLOCK)
+            s += "<" + lex.caseify(rng, n) + fattrs(rng) + ">" + html_inside(rng, depth + 1, inline_only) + "</" + lex.caseify(rng, n) + ">"
         elif r < 0.55:
             s += "<" + rng.choice(HTML_VOID) + fattrs(rng) + rng.choice([">", "/>", " />"])
         elif r < 0.75:
@@ -153,7 +157,7 @@ def foreign_children(rng, root, depth):
                 else:
                     enc = rng.choice(["text/html", "application/xhtml+xml", "TEXT/HTML", "Application/XHTML+XML"])
                     q = rng.choice(['"', "'", ""])
-                    s += "<annotation-xml" + rng.choice(["", " id=a"]) + " encoding=" + q + enc + q + ">" + html_inside(rng, depth + 1) + "</annotation-xml>"
+                    s += "<annotation-xml" + rng.choice(["", " id=a"]) + " encoding=" + q + enc + q + ">" + html_inside(rng, depth + 1, True) + "</annotation-xml>"
         elif depth < 3 and rng.random() < 0.5:
             # a foreign root directly inside foreign content (F11 family)
             s += island(rng, depth + 1)
